@@ -27,11 +27,39 @@ func ruleSpecRangeIndex(c *Ctx, r *R) {
 		}
 		return nil
 	}
-	fIdx, fSE, fSL := find("valueToRangeIndex"), find("rangeStartEnd"), find("rangeStartLength")
+	fSE, fSL := find("rangeStartEnd"), find("rangeStartLength")
 	numT := c.LookupType("", "_number")
-	if fIdx == nil || fSE == nil || fSL == nil || numT == nil {
-		r.undecided("anchors", "-", "UNRESOLVED: valueToRangeIndex / rangeStartEnd / rangeStartLength / _number")
+	if fSE == nil || fSL == nil || numT == nil {
+		r.undecided("anchors", "-", "UNRESOLVED: rangeStartEnd / rangeStartLength / _number")
 		return
+	}
+	// the helper that turns one argument into a position: whatever rangeStartEnd calls with (argument, size, flag) and an
+	// int64 result - under any name, taking the Value or the already converted integer; nil when it is written out in
+	// place (the two entry points below then cover it alone)
+	var fIdx *ssa.Function
+	idxTakesValue := false
+	for _, b := range fSE.Blocks {
+		for _, ins := range b.Instrs {
+			if call, ok := ins.(*ssa.Call); ok {
+				if cal := call.Call.StaticCallee(); cal != nil && len(cal.Blocks) > 0 && len(cal.Params) == 3 && cal.Signature.Results().Len() == 1 {
+					isI64 := func(t types.Type) bool {
+						bt, ok := t.Underlying().(*types.Basic)
+						return ok && bt.Kind() == types.Int64
+					}
+					isB := func(t types.Type) bool {
+						bt, ok := t.Underlying().(*types.Basic)
+						return ok && bt.Kind() == types.Bool
+					}
+					if isI64(cal.Signature.Results().At(0).Type()) && isI64(cal.Params[1].Type()) && isB(cal.Params[2].Type()) {
+						if typeIs(cal.Params[0].Type(), ottoPath, "Value") {
+							fIdx, idxTakesValue = cal, true
+						} else if isI64(cal.Params[0].Type()) {
+							fIdx = cal
+						}
+					}
+				}
+			}
+		}
 	}
 	nst := numT.Underlying().(*types.Struct)
 	fInt := -1
@@ -141,8 +169,15 @@ func ruleSpecRangeIndex(c *Ctx, r *R) {
 	for size := int64(0); size <= 5; size++ {
 		for _, a := range argsDom {
 			for _, flag := range []bool{false, true} {
+				if fIdx == nil {
+					continue
+				}
 				results["valueToRangeIndex"].n++
-				ret, pan, fail := absRun(in, fIdx, []aval{mk(a), aInt(size), aBool(flag)})
+				var first aval = aInt(toInt(a))
+				if idxTakesValue {
+					first = mk(a)
+				}
+				ret, pan, fail := absRun(in, fIdx, []aval{first, aInt(size), aBool(flag)})
 				if fail != "" || pan != nil {
 					results["valueToRangeIndex"].fail = fail + describeAvalOrNil(pan)
 					continue
@@ -235,7 +270,16 @@ func ruleSpecRangeIndex(c *Ctx, r *R) {
 	}
 	for _, name := range []string{"valueToRangeIndex", "rangeStartEnd", "rangeStartLength"} {
 		re := results[name]
-		site := c.Pos(find(name).Pos())
+		var site string
+		if name == "valueToRangeIndex" {
+			if fIdx == nil {
+				r.ok(name, "-", "no separate position helper: covered by the evaluation of rangeStartEnd and rangeStartLength")
+				continue
+			}
+			site = c.Pos(fIdx.Pos())
+		} else {
+			site = c.Pos(find(name).Pos())
+		}
 		switch {
 		case re.fail != "":
 			r.undecided(name, site, "UNDECIDED: the abstract evaluator does not model "+re.fail)
@@ -345,8 +389,12 @@ func ruleSpecArraySearch(c *Ctx, r *R) {
 			}
 			return out, true
 		},
-		"intValue":    func(in *absInterp, call *ssa.CallCommon, args []aval) (aval, bool) { return m.mkValue(in, "result"), true },
-		"uint32Value": func(in *absInterp, call *ssa.CallCommon, args []aval) (aval, bool) { return m.mkValue(in, "result"), true },
+		"intValue": func(in *absInterp, call *ssa.CallCommon, args []aval) (aval, bool) {
+			return m.mkValue(in, "result"), true
+		},
+		"uint32Value": func(in *absInterp, call *ssa.CallCommon, args []aval) (aval, bool) {
+			return m.mkValue(in, "result"), true
+		},
 	}
 	in = newAbsInterp(hooks)
 	type arg struct {
@@ -625,10 +673,15 @@ func ruleSpecExecLastIndex(c *Ctx, r *R) {
 					}
 				}
 				gotMatch := "no match"
-				if tup, ok := ret.(aTuple); ok && len(tup) == 2 {
-					if b, ok := tup[0].(aBool); ok && bool(b) {
-						gotMatch = describeIntSlice(in, tup[1])
+				switch x := ret.(type) {
+				case aTuple: // (matched, offsets)
+					if len(x) == 2 {
+						if b, ok := x[0].(aBool); ok && bool(b) {
+							gotMatch = describeIntSlice(in, x[1])
+						}
 					}
+				case aSlice: // offsets, nil for no match
+					gotMatch = describeIntSlice(in, x)
 				}
 				if fmt.Sprint(searched) != fmt.Sprint(wantSearched) || fmt.Sprint(puts) != fmt.Sprint(wantPuts) || gotMatch != wantMatch {
 					if bad == "" {
@@ -734,7 +787,7 @@ func ruleSpecParseIntPrefix(c *Ctx, r *R) {
 			}
 			return aStr(t), true
 		},
-		"Trim": nil,
+		"Trim":    nil,
 		"toInt32": func(in *absInterp, call *ssa.CallCommon, args []aval) (aval, bool) { return aInt(radix), true },
 		"digitValue": func(in *absInterp, call *ssa.CallCommon, args []aval) (aval, bool) {
 			n, _ := args[0].(aInt)
